@@ -382,10 +382,13 @@ type clock struct {
 	mode string
 	free bool
 	n    atomic.Int64
+	// extra: steps the model makes that are no step of their own in the code (the read of a Delete that a sweep
+	// starts in the step that finished its previous call): the instants shown are numbered like the model's steps
+	extra atomic.Int64
 }
 
 func (c *clock) Now() time.Time {
-	k := c.n.Load()
+	k := c.n.Load() + c.extra.Load()
 	if c.free {
 		k = c.n.Add(1)
 	}
@@ -473,10 +476,33 @@ type world struct {
 	// a.b leaves the reset time out, so it is kept the same: a reset is then the write of 0.0 and nothing else)
 	resetAt *timestamppb.Timestamp
 
+	// (hail model) every id lookup of the model's collection - the start of a Get / Update / Delete -, with the step
+	// during which it was made: the sweep reports nothing, this is how the start of each of its Deletes is seen
+	idCalls []idCall
+	// the call the thread released last is in, and the yield point it was released from (hooked runs)
+	curK, curFrom string
+	// hook-free sweeps (family hail-sweep, nested): while CreateHail runs, the i-th Delete its sweep starts first
+	// lets sweepRivals[i] run to completion - between the sweep's List and that Delete's read
+	nestedSweep, inCreate, inRival bool
+	sweepRivals                    []Op
+	sweepStarts                    []sweepStart
+
 	// calls made from inside callbacks, in the order they ran
 	mu     sync.Mutex
 	rivals []rivalRun
 	seq    atomic.Int64
+}
+
+// sweepStart: a Delete the sweep started: the hails held when it started, and after the rival that ran there
+type sweepStart struct {
+	ID            int
+	Seq           int64
+	Before, After map[int]P
+}
+
+type idCall struct {
+	Step int
+	ID   string
 }
 
 type rivalRun struct {
@@ -514,7 +540,29 @@ func newWorld(sc Scenario, free bool) *world {
 	w.coll = resource.NewCollection(copts...)
 	if w.car == "hail" {
 		// the records live in the hail model's collection instead (w.coll stays empty)
-		hopts := []resource.Option{hailpb.WithKeepAlive(time.Hour), resource.WithClock(w.clk), resource.WithRNG(w.rng)}
+		hopts := []resource.Option{hailpb.WithKeepAlive(time.Hour), resource.WithClock(w.clk), resource.WithRNG(w.rng),
+			resource.WithIDInterceptor(func(id string) string { // the identity, observed
+				w.mu.Lock()
+				w.idCalls = append(w.idCalls, idCall{int(w.clk.n.Load()) - 1, id})
+				w.mu.Unlock()
+				if w.curK == "h" && w.curFrom != "start" && id != "" {
+					w.clk.extra.Add(1) // the sweep of a CreateHail starts a Delete
+				}
+				if w.inCreate && !w.inRival && id != "" && idOf(id) >= 0 && idOf(id) < genBase {
+					st := sweepStart{ID: idOf(id), Seq: w.seq.Add(1), Before: w.hailMap()}
+					if n := len(w.sweepStarts); n < len(w.sweepRivals) {
+						w.inRival = true
+						rr := rivalRun{op: w.sweepRivals[n], genID: -1, inv: w.seq.Add(1)}
+						rr.res = w.exec(rr.op, &rr.genID)
+						rr.resp = w.seq.Add(1)
+						w.rivals = append(w.rivals, rr)
+						w.inRival = false
+					}
+					st.After = w.hailMap()
+					w.sweepStarts = append(w.sweepStarts, st)
+				}
+				return id
+			})}
 		for _, id := range sc.initIDs() {
 			if id < valueID && id != vendID && id != enterID && id != pubID && id != countID || id >= genBase {
 				hopts = append(hopts, resource.WithInitialRecord(idName(id), w.car.withID(w.car.mk(sc.Init[strconv.Itoa(id)]), idName(id))))
@@ -835,6 +883,10 @@ func (w *world) exec(o Op, genID *int) string {
 	case "h":
 		var p P
 		_ = p.UnmarshalText([]byte(o.F[1:]))
+		if w.nestedSweep && !w.inRival {
+			w.inCreate = true
+			defer func() { w.inCreate = false }()
+		}
 		m, err := w.hail.CreateHail(w.car.mk(p).(*traits.Hail))
 		if m == nil {
 			return canon(nil, err)
